@@ -9,6 +9,15 @@ ENUM_MAX_BIG = [2 ** 31, 2 ** 32, 2 ** 32 + 1, 2 ** 49 - 1, 2 ** 49, 2 ** 49 + 1
                 2 ** 62 + 1, 2 ** 63 - 1, 2 ** 63, 2 ** 64 - 1]
 
 
+WIDE_CHARS = ["\u00b0", "\u00e9", "\u00fc", "\u03a9", "\u20ac", "\u4e2d", "\U0001f600", "\u0080", "\u07ff", "\u0800", "\uffff",
+              "\U00010000", "\U0010ffff", "\u00ff"]
+
+
+def text_bytes(s):
+    """a text as the wire carries it: its UTF-8 bytes"""
+    return list(s.encode("utf-8"))
+
+
 def width(rng, hi=64):
     if rng.random() < 0.5:
         w = rng.choice(WIDTH_HOT)
@@ -265,8 +274,10 @@ def gen_value(rng, d: Desc, t, long_ok=True):
             n = rng.randint(1, 8)
         else:
             n = rng.randint(40, 120)
-        cs = [rng.randint(0, 127) for _ in range(n)]
-        return "".join(chr(c) for c in cs), {"s": cs}
+        # texts: mostly 7-bit, now and then characters of two, three and four UTF-8 bytes (the wire carries the UTF-8 bytes,
+        # the count in front of them is the number of BYTES)
+        txt = "".join(chr(rng.randint(0, 127)) if rng.random() < 0.85 else rng.choice(WIDE_CHARS) for _ in range(n))
+        return txt, {"s": text_bytes(txt)}
     if k == "enum":
         es = d.enum(t[1])
         if rng.random() < 0.8:
@@ -323,7 +334,7 @@ def to_model(d: Desc, t, py):
     if k == "str":
         if not isinstance(py, str):
             raise TypeError("expected str")
-        return {"s": [ord(c) for c in py]}
+        return {"s": text_bytes(py)}
     if k == "struct":
         if not isinstance(py, dict):
             raise TypeError("expected dict")
